@@ -86,6 +86,30 @@ P = {
         text="7 lhs kinds x rhs kinds x {<=,>=,==} x direct/reflected spelling (incl. every shape mismatch) and random relations are built; count, type and pairing of element constraints, violation and is_satisfied off the boundary, and - via a stubbed solve - the fun/jac of every SciPy constraint dict are compared with reference lhs-rhs values and their jet gradients.",
         ref="3/C10",
     ),
+    "C12": dict(
+        level="exploration",
+        technique="runtime monitoring: offline checker over recorded operation histories (set/solve/evaluate/compiled calls) against a reference interpreter with current parameter values and a twin-process fresh model",
+        text="Random histories interleave Parameter/VectorParameter/MatrixParameter updates with solves (auto, SLSQP, trust-constr), tree evaluation and calls of value/gradient/Jacobian/Hessian callables compiled at earlier moments, on 9 model families with parameters in every position the property names. Evaluation-type observations are compared with the reference at the current values; solves with a twin process that builds the model afresh with fresh Parameter objects (tight) and with Constants (objective only).",
+        ref="3/C12",
+    ),
+    "C13": dict(
+        level="exploration",
+        technique="runtime monitoring: small-scope exhaustive operation sequences checked against a sequential reference model + twin-process fresh Problem; private-cache coherence probe for localisation",
+        text="All operation sequences up to a length bound over a 13-operation alphabet (set/replace objective, flip sense, add linear / nonlinear / list-with-new-variable constraints, tighten and change bounds, solve with 4 methods, read variables) on 3 base models, the complete 'objective;[constraint];solve;edit;observe' crossing family and long random histories are executed on one Problem object; the final observation of each is compared with a twin process that constructs Problem(current state) from scratch.",
+        ref="3/C13",
+    ),
+    "C16": dict(
+        level="exploration",
+        technique="runtime monitoring: Problem.variables / bounds / domains vs recipe-level syntactic variable set and an independent natural sort; shortcut and near-miss models with shared view objects",
+        text="Directed single-vector-shortcut models (11 kinds of source view x 6 objective forms) and 5 near-misses of each, name-stress models and random problems are built; Problem.variables, n_variables, get_bounds and the variables' domains are compared with the variables syntactically occurring in the recipe, an independent numeric-aware sort (ties between equal keys accepted in any order) and the declarations.",
+        ref="3/C16",
+    ),
+    "C18": dict(
+        level="exploration",
+        technique="runtime monitoring: seam call counters + warning capture + twin-process relaxation over an enumerated route x domain x shape x method matrix",
+        text="For 16 declaration routes x {integer, binary} x 3 model shapes x 11 methods x {linear, nonlinear}: strict=True must raise IntegerVariableError naming exactly the discrete problem variables before either SciPy seam is entered; the non-strict solve must warn with exactly those names and equal the twin's solve of the continuous relaxation; every binary element must have bounds (0,1) and every view must keep the domain.",
+        ref="3/C18",
+    ),
 }
 
 PENDING = "check under construction in this round (see DESIGN.md section 3 for the planned monitor)"
